@@ -37,10 +37,11 @@ var c19Perturbs = []string{
 func genC19(t *rapid.T, tier string) C19Case {
 	c := C19Case{Cfg: core.GenConfig(t, tier, core.GenOpts{
 		Caches: []string{"none", "none", "big"}, Marshalers: []string{"json"},
-		Vals: []string{core.VInt, core.VString, core.VBytes, core.VLong},
+		Vals:     []string{core.VInt, core.VString, core.VBytes, core.VLong},
+		BigOneIn: 12,
 	})}
 	pool := len(c.Cfg.Pool())
-	c.Base = append(core.GenFill(t, pool, pool), core.GenProgram(t, pairBaseWeights, 10, 1)...)
+	c.Base = append(core.GenFillCfg(t, c.Cfg, pool), core.GenProgram(t, core.WithBulk(pairBaseWeights, c.Cfg), 10, 1)...)
 	c.Perturb = rapid.SampledFrom(c19Perturbs).Draw(t, "perturb")
 	c.A = rapid.IntRange(0, 4000).Draw(t, "a")
 	c.B = rapid.IntRange(0, 4000).Draw(t, "b")
